@@ -36,4 +36,4 @@ META = dict(
     technique="runtime monitoring: reference live-set model after every operation + interval-bound checker over the event log + TSan/ASan",
 )
 
-CFG["rule"] += (" " + 'Additions: blocks obtained directly from the wrapped allocator are released / resized through the tracer; every 64th sequential case makes 4000-8192 allocations at level STACKS through as many distinct call chains; stage thr_tsanrel (-O2 under TSan).')
+CFG["rule"] += (" " + 'Additions: blocks obtained directly from the wrapped allocator are released / resized through the tracer; every 64th sequential case makes 4000-8192 allocations at level STACKS through as many distinct call chains; stage thr_tsanrel (-O2 under TSan). Every 512th sequential case puts four callocs of 4 GiB and more (1 x (4 GiB+4096), 65537 x 65536, (2^32+3) x 1, 48 x 100 MiB) through the tracer over an address-space-only allocator and compares the totals with the full products.')
